@@ -96,6 +96,14 @@ REGISTRY['C07'] = numeric('C07', 'c07_algebra.cpp', nq=4000, nt=200000, groups_q
                                'indices must raise invalid_argument; hat/vee/bracket/inner identities on random tangent triples (every fifth triple small integers, where every identity must hold exactly); '
                                + RULE_STRATA, assumptions=ASSUME_FP)
 
+REGISTRY['C15'] = numeric('C15', 'c15_interp.cpp', nq=6000, nt=300000, groups_q=CORE + ['BT1', 'BT4'], groups_t=CORE + ['R1', 'R9', 'BT0', 'BT1', 'BT3', 'BT4', 'BA'],
+                          rule='pairs (A, B=A*exp(tab)) with relative rotation stratified up to pi-1e-6 and translations up to 1e6, arbitrary end velocities (zero every third case), 3 methods x {t=0, t=1, interior t, 10 parameters outside [0,1] incl. +-inf, NaN, -denorm_min, nextafter(1)}; '
+                               'SLERP vs the model geodesic and vs left translation by a random L; smoothing_phi on a 20000-point grid for degrees 1..4, unsupported degrees {0,5,6,100,SIZE_MAX}; ' + RULE_STRATA, assumptions=ASSUME_FP)
+
+REGISTRY['C16'] = numeric('C16', 'c16_average.cpp', nq=1500, nt=100000, groups_q=CORE + ['R1', 'BT1'], groups_t=CORE + ['R1', 'R9', 'BT0', 'BT1', 'BT4', 'BA'], float_groups=['SE2', 'SO3', 'SE3'], shard=5000,
+                          rule='clouds of 1..50 points C (+) d_i around a centre C drawn from all rotation strata (incl. within 1e-12 of pi) with coordinates up to 1e3, radius log-uniform in [1e-6,0.5] (0.5 every fifth case), identical points every ninth case; '
+                               'four routines; stationarity measured with the model logarithm; random permutation; left/right translations by random elements; ' + RULE_STRATA, assumptions=ASSUME_FP)
+
 def c17_spec():
     groups = ['SE2', 'SO3', 'SE3', 'SGAL3', 'R3', 'BT1']
     def bins(tier):
@@ -304,7 +312,13 @@ MANIFEST_META = {
     'C06': dict(engine='ref-model differential monitor', design_ref='DESIGN.md 4/C06', technique='runtime monitor vs series-defined Jr (augmented expm of ad), model Adj/ad',
                 text='rjac/ljac are compared with sum_k (-ad)^k/(k+1)! evaluated as a block of expm([[-ad,I],[0,0]]) (no small-angle case analysis in the oracle), the inverses with the model inverse and as products, Adj/adj/smallAdj with their definitions on the reference matrices, at the 1e-6 relative bound the property states, densely in (sqrt(eps),1e-2) where the defects were.',
                 note=NOTE_NUM),
-    'C17': dict(engine='child-per-case enumerator', design_ref='DESIGN.md 4/C17', category='fault_enumeration', technique='exhaustive enumeration of (N,degree,k,closed) with one sanitized child process per configuration under a watchdog; reference De Casteljau on the model',
+    'C15': dict(engine='ref-model differential monitor', design_ref='DESIGN.md 4/C15', technique='runtime monitor: end points, rejection of out-of-range parameters, SLERP vs model geodesic and left translation',
+                text='For three methods and arbitrary end velocities the end points are compared with A and B on the model, ten out-of-range parameters (incl. NaN, +-inf, -denorm_min, nextafter(1)) must raise, SLERP is compared with A*exp(t*log(A^-1 B)) evaluated on the model and with its left translate, and smoothing_phi is checked on a 20000-point grid per degree.',
+                note=NOTE_NUM + ' Out-of-range parameters are judged in the scalar type of the group (1+1e-9 is exactly 1 in float).'),
+    'C16': dict(engine='ref-model differential monitor', design_ref='DESIGN.md 4/C16', technique='runtime monitor: stationarity residual with the model logarithm, permutation and translation equivariance, validity',
+                text='Clouds of 1..50 points within geodesic radius <=0.5 of centres from every rotation stratum (incl. at the cut locus of log from the identity): result valid and finite, identical points returned unchanged, empty set raises; for the bi-invariant and both Frechet means the model residual (1/n) sum log(m^-1 X_i) is below 4*sqrt(eps) - which also observes that the iteration stopped by convergence within its budget - and the result is invariant under permutation and commutes with left/right translation; the weighted average commutes with left translation.',
+                note=NOTE_NUM + ' Translations L, R have tangent coordinates in [-1,1] so that Adj does not amplify the stopping tolerance; centres have coordinates up to 1e3.'),
+    'C17': dict(engine='child-per-case enumerator', design_ref='DESIGN.md 4/C17', technique='exhaustive enumeration of (N,degree,k,closed) with one sanitized child process per configuration under a watchdog; reference De Casteljau on the model',
                 text='Every configuration of the stated box runs decasteljau in its own forked child under ASan+UBSan+_GLIBCXX_ASSERTIONS; non-termination (watchdog, after one re-run), aborts, out-of-range indices and sanitizer reports are violations; size, window ends and every curve point are compared with a reference evaluation on the long-double model; inputs that must raise are enumerated too.',
                 note='Exhaustive over the box only (quick N<=10,k<=2; thorough N<=16,k<=4); trajectories are 1-3 random draws per configuration. ' + NOTE_NUM),
     'C19': dict(engine='api-matrix builder', design_ref='DESIGN.md 4/C19', technique='exhaustive generated API matrix: each cell compiled, executed under ASan/UBSan, digest compared bit-wise with the owning instantiation',
